@@ -149,6 +149,20 @@ def execute(sc):
             return A.async_background_batcher(batch_fn)
         raise ValueError(form)
 
+    proj_obj = [None]
+    _orig_log = ctl.log
+
+    def log_with_proj(e, **kw):
+        d = _orig_log(e, **kw)
+        b = proj_obj[0]
+        if b is not None and e in ('Call', 'CallEnd', 'Cancel', 'BatchStart', 'Yield', 'BatchEnd'):
+            try:
+                d['st'] = {'q': b._queue.qsize(), 'keys': sorted(b._retention_cache), 'sem': b._semaphore._value}
+            except Exception:
+                pass
+        return d
+    ctl.log = log_with_proj
+
     shared = {}
     if sc.get('form', 'class') != 'class':
         shared['fn'] = make(None)      # decorated once, outside any loop
@@ -209,6 +223,8 @@ def execute(sc):
         async def main():
             fn = shared.get('fn') or make(loop)
             keep.append(fn)
+            if sc.get('form', 'class') == 'class' and len(loops) == 1:
+                proj_obj[0] = fn
             mine = [cs for cs in sc['calls'] if cs.get('loop', 'L1') == name]
 
             def hop(k, i):
